@@ -115,6 +115,17 @@ CHECKS = {
         "note": "Trusted: TLC; closed forms for deep depths (validated against TengoSem at model depths in the same run); the probe hook.",
         "technique": "TLA+ model of the frame discipline checked by TLC + reference semantics at small depths + deep real runs with frame probe",
     },
+    "C06": {
+        "text": ("AllocTrace.tla states the VM's allocation accounting (counter N+1, tracked sites, decrement after success, stop at zero); TLC "
+                 "replays the per-instruction trace of every real run under budgets 0..5, A-2..A+1, A+7 and unlimited and checks the counter at "
+                 "every instruction, 'at most N tracked allocations' and 'limit error after exactly N+1'; monotonicity is checked on the real "
+                 "outcomes. TengoSem with MaxStringLen=MaxBytesLen=8 predicts every string/bytes producing operation across the boundary and the "
+                 "real run (maxima set to 8 in the child) must agree, with every reachable value measured. Deep recursion must end in the "
+                 "stack-overflow error exactly when the frame limit is what runs out."),
+        "design_ref": "DESIGN.md 8/C06",
+        "note": "Trusted: TLC; the probe's report of VM.allocs; the tracked-site table transcribed from vm.go. format() is covered by C17's limit cases.",
+        "technique": "TLA+ trace validation of the allocation counter (every instruction of every run) + reference semantics with small limits + boundary runs",
+    },
     "C07": {
         "text": ("TLC checks RunContext.tla (PlusCal model of Compiled.RunContext + VM abort protocol) over all interleavings of "
                  "caller/runner/canceller for every program shape and length <= 8: safety (right return value, <=1 instruction after "
